@@ -64,7 +64,7 @@ func IDs() Spec {
 	})
 	evs := []E{
 		fix(createClass(A, "C", 20)), fix(createClass(A, "BIO", 20)), fix(createClass(B, "KSH", 25)),
-		fix(createClass(D, "C", 1)),  // fee below the class fee
+		fix(createClass(D, "C", 1)),   // fee below the class fee
 		fix(createClass(A, "XX", 20)), // unknown credit type
 	}
 	proj := func(signer sdk.AccAddress, k int, refID string) E {
@@ -125,5 +125,5 @@ func IDs() Spec {
 	for _, e := range evs {
 		exp[e.Name] = true
 	}
-	return Spec{Name: "ids", Seeds: []explore.Seed{fresh, rollover}, Events: evs, DepthQuick: 4, DepthThor: 5, ExpectFail: exp, MinStates: 500}
+	return Spec{Name: "ids", Seeds: []explore.Seed{fresh, rollover}, Events: evs, DepthQuick: 5, DepthThor: 6, ExpectFail: exp, MinStates: 500}
 }
